@@ -36,7 +36,7 @@ def build_chrom(spec):
 
 def build_signal(spec, L):
 	r = numpy.random.RandomState((spec["seq_seed"] + 991) % 2 ** 31)
-	v = numpy.zeros(L, dtype="float32")
+	v = numpy.zeros(L, dtype="float32") + float(spec.get("base", 0.0))
 	for _ in range(spec.get("n_bumps", 3)):
 		p = r.randint(0, max(1, L))
 		q = min(L, p + r.randint(1, 80))
@@ -133,7 +133,8 @@ class C17(runner.Check):
 				tot += bl
 			chroms.append({"name": "chr%d" % (i + 1), "length": L, "seq_seed": r.subseed(),
 				"blocks": blocks, "n_bumps": r.randint(0, 6), "n_gaps": r.randint(0, 3),
-				"gap_len": r.choice([60, 60, 2 * w, 4 * w])})
+				"gap_len": r.choice([60, 60, 2 * w, 4 * w]),
+				"base": r.choice([0.0, 0.0, 0.5, 1.0, 2.0])})
 		loci = []
 		n_loci = r.wchoice([r.randint(5, 30), r.randint(30, 200)], [3, 1])
 		loci_chroms = r.sample(chroms, r.randint(1, len(chroms)))
